@@ -397,10 +397,17 @@ func (e *expoHistogram[N]) delta(dest *metricdata.Aggregation) int {
 
 		if !e.noSum {
 			hDPts[i].Sum = val.sum
+		} else {
+			// The destination point is reused memory: do not report what
+			// it held before.
+			hDPts[i].Sum = 0
 		}
 		if !e.noMinMax {
 			hDPts[i].Min = metricdata.NewExtrema(val.min)
 			hDPts[i].Max = metricdata.NewExtrema(val.max)
+		} else {
+			hDPts[i].Min = metricdata.Extrema[N]{}
+			hDPts[i].Max = metricdata.Extrema[N]{}
 		}
 
 		collectExemplars(&hDPts[i].Exemplars, val.res.Collect)
@@ -458,10 +465,17 @@ func (e *expoHistogram[N]) cumulative(dest *metricdata.Aggregation) int {
 
 		if !e.noSum {
 			hDPts[i].Sum = val.sum
+		} else {
+			// The destination point is reused memory: do not report what
+			// it held before.
+			hDPts[i].Sum = 0
 		}
 		if !e.noMinMax {
 			hDPts[i].Min = metricdata.NewExtrema(val.min)
 			hDPts[i].Max = metricdata.NewExtrema(val.max)
+		} else {
+			hDPts[i].Min = metricdata.Extrema[N]{}
+			hDPts[i].Max = metricdata.Extrema[N]{}
 		}
 
 		collectExemplars(&hDPts[i].Exemplars, val.res.Collect)
